@@ -3,6 +3,7 @@ from functools import partial
 
 from props import docs_b
 from props import lexical as LX
+from verif import extract
 from verif.common import Ctx, Ob, Outcome, Witness
 
 PROPERTY = "C02"
@@ -44,6 +45,77 @@ def ob_parser_append_only(ctx: Ctx) -> Outcome:
     return Outcome.ok("frames", count=n)
 
 
+def probe_key_specific_quoting():
+    """values of every type under keys with key-specific emitter rules: the canonical text must read back with the same type"""
+    from octave_mcp.core.emitter import emit
+    from octave_mcp.core.parser import parse
+
+    bad = []
+    for key in ("PATTERN", "REGEX"):
+        for lit, typ in (("42", int), ("1.5", float), ("true", bool), ("null", type(None)), ("[1,2]", None), ('"x y"', str), ("bare", str)):
+            for text in (f"===D===\n{key}::{lit}\n===END===\n", f"===D===\nB:\n  {key}::{lit}\n===END===\n", f"===D===\nL::[{key}::{lit}]\n===END===\n"):
+                d1 = parse(text)
+                d2 = parse(emit(d1))
+
+                def leaf(d):
+                    n = d.sections[0]
+                    v = n.value if hasattr(n, "value") else n.children[0].value
+                    if type(v).__name__ == "ListValue" and v.items and type(v.items[0]).__name__ == "InlineMap":
+                        v = list(v.items[0].pairs.values())[0]
+                    return v
+
+                a, b = leaf(d1), leaf(d2)
+                if type(a) is not type(b) or (typ is not None and a != b):
+                    bad.append(f"{text!r}: read as {a!r} ({type(a).__name__}), its canonical text reads as {b!r} ({type(b).__name__})")
+    return bool(bad), "; ".join(bad[:2]) or "probe: values under PATTERN / REGEX keep their type through the canonical text"
+
+
+def ob_key_quoting_guard(ctx: Ctx):
+    """C02.F2: outside emit_value's own string branch, the emitter wraps an already emitted value text in quotes only under an
+    `isinstance(<raw value>, str)` test (key-specific rules such as PATTERN/REGEX must not turn numbers, booleans, null or
+    lists into strings)"""
+    import ast
+
+    from verif.common import shape_verdict
+
+    wits, n = [], 0
+    try:
+        tree = extract.module_ast("octave_mcp.core.emitter")
+    except extract.ExtractionError as e:
+        return Outcome.undecided("ast-shape", str(e))
+    for fn in [f for f in ast.walk(tree) if isinstance(f, ast.FunctionDef)]:
+        parents = {}
+        for p_ in ast.walk(fn):
+            for c in ast.iter_child_nodes(p_):
+                parents[id(c)] = p_
+        for node in ast.walk(fn):
+            if isinstance(node, ast.JoinedStr) and ast.unparse(node) in ("f'\"{escaped}\"'", "f'\"{value_str}\"'", "f'\"{v_str}\"'"):
+                # climb to the enclosing ifs
+                tests = []
+                cur = node
+                while id(cur) in parents:
+                    par = parents[id(cur)]
+                    if isinstance(par, ast.If) and any(cur is x or cur in list(ast.walk(x)) for x in par.body):
+                        tests.append(ast.unparse(par.test))
+                    cur = par
+                    if isinstance(par, ast.FunctionDef):
+                        break
+                n += 1
+                joined = " and ".join(tests)
+                in_str_branch = fn.name == "emit_value" and ("isinstance(value, str)" in joined or "needs_quotes(value)" in joined)
+                # emit_value's early-return spelling: `if not needs_quotes(value): return value` precedes the quoting in the str branch
+                if fn.name == "emit_value" and not in_str_branch and any(isinstance(x, ast.If) and ast.unparse(x.test) == "isinstance(value, str)" and node in list(ast.walk(x)) for x in ast.walk(fn)):
+                    in_str_branch = True
+                guarded = bool(__import__("re").search(r"isinstance\((\w|\.)+, str\)", joined))
+                if not (in_str_branch or guarded):
+                    wits.append(f"{fn.name} L{node.lineno}: quotes are put around an emitted value under `{joined[:120] or 'no test'}` without an isinstance(..., str) test")
+    if n == 0:
+        return Outcome.undecided("ast-shape", "no quoting site found in the emitter")
+    if wits:
+        return shape_verdict("ast-shape", wits, probe_key_specific_quoting, n, {"runner": "props.C02:probe_key_specific_quoting", "args": {}})
+    return Outcome.ok("ast-shape", count=n)
+
+
 def ob_b1(ctx: Ctx):
     return docs_b.run(ctx, {"C02"}, 6000, 40000, 4, 16)
 
@@ -63,6 +135,7 @@ def obligations(ctx: Ctx):
         Ob(f"{P}.R2.ann", "R", "bare NAME<qualifier> strings re-lex to one IDENTIFIER token", LX.FUNCS_EMIT + LX.FUNCS_LEX, partial(LX.ob_ident, oid=f"{P}.R2", which="ann")),
         Ob(f"{P}.R2.expr", "R", "bare operator expressions re-lex segment by segment", LX.FUNCS_EMIT + LX.FUNCS_LEX, partial(LX.ob_expr, oid=f"{P}.R2")),
         Ob(f"{P}.T1.shape", "R", "quoted emission is one single-quoted STRING token", LX.FUNCS_EMIT + LX.FUNCS_LEX, partial(LX.ob_quoted_shape, oid=f"{P}.T1")),
+        Ob(f"{P}.F2", "F", "key-specific quoting (PATTERN/REGEX) applies to string values only", ["octave_mcp.core.emitter:emit_assignment", "octave_mcp.core.emitter:_force_quote_inline_map_value"], ob_key_quoting_guard),
         Ob(f"{P}.F1", "F", "the parser builds sibling lists by append only", [PARSER + ":Parser.*"], ob_parser_append_only),
         Ob(f"{P}.B1", "B", "content read == content written == content of the canonical text, field by field against the model", ["octave_mcp.core.parser:parse", "octave_mcp.core.parser:parse_with_warnings", "octave_mcp.core.emitter:emit"], ob_b1, timeout=3000),
     ]
